@@ -179,6 +179,32 @@ def Sys.step (s : Sys) (i : Nat) : Op → Sys
     else { (List.range s.readers.length).foldl (fun s r => s.readerShutdown i r) s with shut := true }
   | .rshut r => s.readerShutdown i r
 
+/-! ### instrument objects vs streams (duplicate registration)
+
+A stream of one reader is identified by (name, description, unit, kind, number type) — `instID`, the key of the
+inserter's aggregator cache (pipeline.go:237-292, 350-419; the int64 and float64 inserters have separate caches) and
+of the meter's instrument cache (meter.go `int64Insts.Lookup(instID…)`).  Creating an instrument AGAIN with the same
+identity returns the cached instrument: both objects feed ONE stream.  Creating an instrument with the same name but a
+different kind or number type only logs a warning: it gets its own aggregate function, `addSync` appends its own compute
+function, and every collection reports two Metrics entries with equal names.  `names[j]` = index of the instrument
+whose name instrument `j` uses (itself if it has its own). -/
+
+/-- the instrument object that owns the stream instrument `j` feeds: the first instrument with the same name, kind
+and number type -/
+def ownerOf (is : List InstCfg) (names : List Nat) (j : Nat) : Nat :=
+  match is[j]?, names[j]? with
+  | some ij, some nj =>
+    ((List.range j).find? fun k =>
+      match is[k]?, names[k]? with
+      | some ik, some nk => nk == nj && ik.float == ij.float && ik.updown == ij.updown
+      | _, _ => false).getD j
+  | _, _ => j
+
+/-- `Add` on an instrument object is `Add` on the stream's owner -/
+def Op.resolve (is : List InstCfg) (names : List Nat) : Op → Op
+  | .add j a v => .add (ownerOf is names j) a v
+  | op => op
+
 def Sys.runFrom (s : Sys) (i : Nat) : List Op → Sys
   | [] => s
   | op :: ops => (s.step i op).runFrom (i + 1) ops
